@@ -327,9 +327,11 @@ pub fn run_profile(p: &'static Profile, cfg: &RunCfg) -> Report {
     // 2. random cases with shrinking
     let per = (cases as usize).div_ceil(cfg.workers.max(1)) as u32;
     let mut hs = vec![];
+    let claimed = Arc::new(std::sync::atomic::AtomicBool::new(false));
     if cases > 0 && failures.lock().unwrap().is_empty() {
         for wk in 0..cfg.workers {
             let (stats, abort, failures, known) = (stats.clone(), abort.clone(), failures.clone(), known.clone());
+            let claimed = claimed.clone();
             let tier = cfg.tier;
             let seed = mix64(mix64(mix64(cfg.seed, str_hash(p.id)), str_hash(DRIVER)), wk as u64);
             hs.push(std::thread::spawn(move || {
@@ -344,12 +346,14 @@ pub fn run_profile(p: &'static Profile, cfg: &RunCfg) -> Report {
                 let last2 = last.clone();
                 let shrinking = Arc::new(std::sync::atomic::AtomicBool::new(false));
                 let shr = shrinking.clone();
+                let claimed = claimed.clone();
                 let strat = (p.raw)(tier);
                 let r = runner.run(&strat, move |raw| {
-                    if abort.lock().unwrap().is_some() {
+                    let in_shrink = shr.load(std::sync::atomic::Ordering::SeqCst);
+                    // only one worker shrinks and reports; the others stop exploring
+                    if abort.lock().unwrap().is_some() || (!in_shrink && claimed.load(std::sync::atomic::Ordering::SeqCst)) {
                         return Ok(());
                     }
-                    let in_shrink = shr.load(std::sync::atomic::Ordering::SeqCst);
                     let scn = Arc::new((p.build)(&raw, tier, rt::SCHED));
                     if !in_shrink {
                         stats.lock().unwrap().cases += 1;
@@ -358,6 +362,9 @@ pub fn run_profile(p: &'static Profile, cfg: &RunCfg) -> Report {
                     let attempts = if !rt::SCHED && in_shrink { 5 } else { 1 };
                     for _ in 0..attempts {
                         if let Err((sched, m)) = judge_all(p, &scn, &schedules_for(&scn, scheds), &stats, &known, !in_shrink, &abort) {
+                            if !in_shrink && claimed.swap(true, std::sync::atomic::Ordering::SeqCst) {
+                                return Ok(());
+                            }
                             shr.store(true, std::sync::atomic::Ordering::SeqCst);
                             stats.lock().unwrap().failed = true;
                             *last2.lock().unwrap() = Some(Failure { scn: (*scn).clone(), sched, msg: m.clone() });
